@@ -220,7 +220,7 @@ def units(tier, seed):
         combos = [('nd', [U22, 'nd']), (U11, ['nd', U32]), (U22, [U13])]
     else:
         combos = [('nd', [U22, 'nd', U11]), (U11, ['nd', U32, U22]), (U22, [U13, 'nd', U22]), (U32, [U11, U32]), ('nd', ['nd', 'nd', U32])]
-    progs = [p for p in PR.catalogue() if not ('slow' in p.tags)]
+    progs = [p for p in PR.catalogue() if not ('slow' in p.tags) and not any(t.startswith('fac:') for t in p.tags)]
     for prog in progs:
         kink = 'clip' in prog.tags or prog.name in ('absolute', 'sign') or 'lu' in prog.tags
         for i, (rec, reps) in enumerate(combos):
